@@ -89,6 +89,11 @@ def j_rules(P, E):
                     leaves |= src.value_sources(src.operand_prov(o))
                 foreign = [t for t in leaves if t[0] != "const" and not _hits(P, src, [t], "serial")]
                 r.instance(("J1", src.nid, "advance"), True, "serial store fed by %s" % sorted(src.term_name(t) for t in leaves))
+                if not foreign and not src.advances(rv):
+                    r.violate(("J1", src.nid, "serial does not move"),
+                              "the value stored back into the key counter is not the old one plus a non-zero constant (steps found: %s): "
+                              "consecutive subscribers get the same key, the later one overwrites the earlier one's registration"
+                              % src.arith_steps(rv), body=src, line=s_.get("line"))
                 if foreign:
                     r.violate(("J1", src.nid, "serial not advanced from itself"),
                               "the new value of the key counter derives from %s, not only from the counter: a key can be "
